@@ -10,7 +10,7 @@ META = {
         "text": "Kernel-checked: for all event sequences of the models, every internal event after the closed mark decreases a measure and a waiting Close is never blocked (close_terminates, full, via the message-tracking invariant; group_run_terminates on the GroupRun model; termination in finitely many steps given each network call returns), calls arriving after Close get io.ErrClosedPipe / io.EOF, cancelled blocked calls can return the context error, at CloseReturn every accepted message had its Completion and no goroutine/connection of the model is live; D1 documented by a decide-checked stuck state of the unrepaired step relation. Wall-clock bounds are observed by watchdogs only (partial).",
         "design_ref": "DESIGN.md §7 C08,C07,C01,C09(Writer) and C09 — Reader / ConsumerGroup / Transport part",
     },
-    "level_note": "Trusted: Lean kernel; propext/Classical.choice/Quot.sound; the hand-written LTS models (regenerated tie: 49 structural facts of the close protocol re-extracted by go/ast from writer.go/reader.go/consumergroup.go/transport.go/dialer.go on every run, Props/C09 proves they all hold and instantiates Cfg.fixed with the extracted fact; the Writer clause (safety, deadlock-freedom, termination measure) is also proved on the writer builder's Model/Writer.lean, which C01/C07/C08 tie by replaying W.* hook traces one event at a time; otherwise the models follow the source by hand and are tied by trace acceptance — existential over unobserved events for the Writer/Reader, deterministic over hook events for ConsumerGroup.run and Transport connections — internal events are existentially quantified by the oracle's state-set simulation, so an implementation whose internal order differs but whose observable behaviour is allowed is accepted); 'every network call returns' is no longer assumed: against a silent broker / coordinator an operation returns only through its deadline (stepSilent / stepSilentG), and the deadline facts are extracted from reader.go / consumergroup.go / writer.go; the Go runtime (WaitGroup, channels, timers) is modelled; the fakes (message-level RoundTripper, byte-level broker over net.Pipe); goroutine census by stack inspection. 'Bounded time' is a watchdog observation, not a theorem.",
+    "level_note": "Trusted: Lean kernel; propext/Classical.choice/Quot.sound; the hand-written LTS models (regenerated tie: 51 structural facts of the close protocol re-extracted by go/ast from writer.go/reader.go/consumergroup.go/transport.go/dialer.go on every run, Props/C09 proves they all hold and instantiates Cfg.fixed with the extracted fact; the Writer clause (safety, deadlock-freedom, termination measure) is also proved on the writer builder's Model/Writer.lean, which C01/C07/C08 tie by replaying W.* hook traces one event at a time; otherwise the models follow the source by hand and are tied by trace acceptance — existential over unobserved events for the Writer/Reader, deterministic over hook events for ConsumerGroup.run and Transport connections — internal events are existentially quantified by the oracle's state-set simulation, so an implementation whose internal order differs but whose observable behaviour is allowed is accepted); 'every network call returns' is no longer assumed: against a silent broker / coordinator an operation returns only through its deadline (stepSilent / stepSilentG / stepSilentT), and the deadline facts are extracted from reader.go / consumergroup.go / writer.go / transport.go; the Go runtime (WaitGroup, channels, timers) is modelled; the fakes (message-level RoundTripper, byte-level broker over net.Pipe); goroutine census by stack inspection. 'Bounded time' is a watchdog observation, not a theorem.",
 }
 
 MODULE = "KafkaVerif.Props.C09"
